@@ -111,6 +111,14 @@ fn check_size(id: u8, w: u32, h: u32, pixels: &[(u32, u32)], rng: &mut Rng, rep:
     let mut lens: Vec<usize> = (expected_len.saturating_sub(17)..=expected_len + 17).collect();
     lens.push(0);
     lens.push(4 + w as usize * cb); // the unpadded size
+    // lengths that equal the padded size only after being narrowed to 8 / 16 (/ 24) bits
+    lens.push(expected_len + 256);
+    if (w + 7 * h) % 16 == 3 || w * h == 0 {
+        lens.push(expected_len + 65_536);
+    }
+    if (w, h) == (90, 7) {
+        lens.push(expected_len + (1 << 24));
+    }
     for len in lens {
         rep.count("from_bytes_lengths_tried");
         let content: Vec<u8> = rng.bytes(len);
@@ -288,6 +296,53 @@ fn all_pixels(w: u32, h: u32) -> Vec<(u32, u32)> {
     v
 }
 
+/// Dimensions far beyond anything that can be allocated: `from_bytes` must still compute the padded size without
+/// overflow and reject every buffer we can offer, naming the true expected size.
+fn extreme_dimensions(rep: &mut Report) {
+    let dims: [(u32, u32); 12] = [
+        (u32::MAX, u32::MAX),
+        (u32::MAX, 1),
+        (1, u32::MAX),
+        (u32::MAX, 8),
+        (1 << 16, 1 << 19),       // width x bytes-per-column = 2^32
+        (1 << 16, (1 << 19) - 7), // same column byte count, height not a multiple of 8
+        (1 << 31, 16),
+        (1 << 28, 128),
+        ((1 << 16) + 1, 1 << 19),
+        (0x1_0000, 0x8_0008),
+        (u32::MAX, 0),
+        (0, u32::MAX),
+    ];
+    for (w, h) in dims {
+        let cb = (h as u128).div_ceil(8);
+        let data = 4 + u128::from(w) * cb;
+        let expected = data.div_ceil(16) * 16;
+        for len in [0usize, 4, 16, 32, 48, 4096] {
+            rep.case(Some(mix(u64::from(w) << 32 | u64::from(h), len as u64)));
+            rep.count("extreme_dimension_probes");
+            let content = vec![0x5Au8; len];
+            let r = catch(|| Page::from_bytes(w, h, &content[..]).map(|p| p.as_bytes().len()));
+            let case = format!("from_bytes({}x{}, {} bytes)", w, h, len);
+            match r {
+                Ok(Ok(n)) => {
+                    if len as u128 != expected {
+                        fail(rep, "from_bytes_accepts_wrong_length", w, h, &case, format!("accepted {} bytes, the padded size is {}", n, expected));
+                    }
+                }
+                Ok(Err(PageError::WrongPageLength { width, height, expected: e, actual })) => {
+                    if len as u128 == expected {
+                        fail(rep, "from_bytes_rejects_right_length", w, h, &case, format!("rejected the padded size {}", len));
+                    } else if width != w || height != h || e as u128 != expected || actual != len {
+                        fail(rep, "wrong_page_length_fields", w, h, &case, format!("error says {}x{} expected {} actual {}; the padded size is {}", width, height, e, actual, expected));
+                    }
+                }
+                Ok(Err(e)) => fail(rep, "from_bytes_error_kind", w, h, &case, format!("{:?}", e)),
+                Err(p) => fail(rep, "panic", w, h, &case, format!("{} at {}", p.msg, short_loc(&p.loc))),
+            }
+        }
+    }
+}
+
 pub fn run(ctx: &Ctx) -> Outcome {
     let (bw, bh) = if ctx.quick() { (100u32, 48u32) } else { (256, 136) };
     let mut sizes: Vec<(u32, u32, bool)> = vec![]; // (w, h, sampled pixels only)
@@ -341,6 +396,9 @@ pub fn run(ctx: &Ctx) -> Outcome {
             }
         } else {
             // all ids 0..=255 on three sizes
+            if shard == ns {
+                extreme_dimensions(rep);
+            }
             let (w, h) = [(90u32, 7u32), (40, 12), (3, 9)][shard - ns];
             for id in 0..=255u8 {
                 check_size(id, w, h, &[(0, 0), (w - 1, h - 1)], &mut rng, rep);
@@ -357,6 +415,7 @@ pub fn run(ctx: &Ctx) -> Outcome {
         floor("column byte counts 0..=5 all seen", report.set_len("column_bytes") >= 6, report.set_len("column_bytes")),
         floor("pixel placement also checked on borrowed pages with existing content", report.get("pixels_checked_on_borrowed_pages") > 10_000, report.get("pixels_checked_on_borrowed_pages")),
         floor("equality with from_bytes(as_bytes()) after set/clear/fill histories, incl. pages brought back to blank", report.get("equality_checked_on_pages_back_to_blank") > 1000, report.get("equality_checked_on_pages_back_to_blank")),
+        floor("from_bytes with dimensions up to u32::MAX", report.get("extreme_dimension_probes") == 72, report.get("extreme_dimension_probes")),
         floor("from_bytes both accepted and rejected", report.get("from_bytes_accepted") > 0 && report.get("from_bytes_rejected") > 0, report.get("from_bytes_rejected")),
     ];
     Outcome {
